@@ -23,6 +23,9 @@ func vChoosePerm(b [][]byte) [][]byte {
 
 func vH_C16_enum() {
 	cfg := vCfgFromParams()
+	if vChoose("cmp", 0, vParam("cmps")-1) == 1 {
+		cfg.cmp = vReverseCompare
+	}
 	pre := vBuildPre(cfg)
 	c, m := pre.c, pre.m
 	switch vChoose("which", 0, 2) {
@@ -158,8 +161,17 @@ func vH_C08_revert() {
 		vCover("memonly")
 		return
 	}
-	c := s.SetCollection("a", nil)
-	m := &vModel{cmp: vCmpDefault}
+	cmp := vCmpDefault
+	var cbs StoreCallbacks
+	if vChoose("custom-cmp", 0, vParam("cmps")-1) == 1 {
+		cmp = vReverseCompare
+		cbs.KeyCompareForCollection = func(string) KeyCompare { return vReverseCompare }
+		var err error
+		s, err = NewStoreEx(f, cbs)
+		vAssert("newstoreex", vAnd(err == nil, s != nil))
+	}
+	c := s.SetCollection("a", cmp)
+	m := &vModel{cmp: cmp}
 	var stack []vFlushRec
 	nf := vChoose("flushes", 0, vParam("flushes"))
 	for i := 0; i < nf; i++ {
@@ -194,7 +206,7 @@ func vH_C08_revert() {
 	}
 	if nf > 0 && vChoose("reopen", 0, 1) == 1 {
 		vTrace("Reopen")
-		s2, err := NewStore(f)
+		s2, err := NewStoreEx(f, cbs)
 		vAssert("reopen-ok", vAnd(err == nil, s2 != nil))
 		s = s2
 		c = s.GetCollection("a")
@@ -223,7 +235,7 @@ func vH_C08_revert() {
 			vCover("reverted-to-empty")
 		}
 		// re-open agrees
-		s3, err := NewStore(f)
+		s3, err := NewStoreEx(f, cbs)
 		vAssert("revert-reopen-ok", vAnd(err == nil, s3 != nil))
 		if s3 != nil {
 			if idx >= 0 {
@@ -240,8 +252,8 @@ func vH_C08_revert() {
 	// new flushes after a revert are durable as usual
 	if vChoose("continue", 0, 1-vParam("lean")) == 1 {
 		vTrace("continue")
-		c = s.SetCollection("a", nil)
-		cur := &vModel{cmp: vCmpDefault}
+		c = s.SetCollection("a", cmp)
+		cur := &vModel{cmp: cmp}
 		if idx := nf - 1 - r; idx >= 0 {
 			cur = stack[idx].m.clone()
 		}
@@ -250,7 +262,7 @@ func vH_C08_revert() {
 		it, _ := c.GetItem(key, false)
 		cur.set(key, val, it.Priority)
 		vAssert("continue-flush", s.Flush() == nil)
-		s4, err := NewStore(f)
+		s4, err := NewStoreEx(f, cbs)
 		vAssert("continue-reopen", vAnd(err == nil, s4 != nil))
 		if s4 != nil && s4.GetCollection("a") != nil {
 			vCheckColl("continued", s4.GetCollection("a"), cur)
